@@ -34,7 +34,16 @@ func c15ContCfg(sigma []string, maxLen int, mode string, depth int) string {
 
 var c15Dummy = map[string][]byte{"cont_progs.ndjson": []byte(`{"id":0,"c":["id"],"o":["n"],"oi":["-"]}` + "\n")}
 
-var c15AllKinds = []string{"set", "inc", "print", "def1", "def2", "call", "mdef1", "mdef2", "muse", "ret", "err"}
+var c15AllKinds = []string{"set", "inc", "print", "def1", "def2", "call", "show", "mdef1", "mdef2", "mfun", "muse", "ret", "err"}
+
+// the kinds of the run about ONE name that is a macro, another macro, a function, between its uses
+var c15RedefKindsRun = []string{"set", "mdef1", "mdef2", "mfun", "muse"}
+
+const c15ChunkInvariants = "TypeOK ChunkingIsInvisible RestIsWhole NoChunkFails HoistingSeenOnlyThere"
+
+// the kinds of the run that varies the form of the function bodies: a function defined, redefined, read as text and
+// called, on either side of a macro definition
+var c15FormKindsRun = []string{"set", "def1", "def2", "show", "call", "mdef1"}
 
 // pinned complete programs: every boundary and every interior offset of strings / comments is cut (regression cases
 // of repaired defects and reproducers of listed findings stay here)
@@ -69,15 +78,23 @@ func checkC15(c *Ctx) {
 	jobs := []*tlcJob{
 		{name: "mc", opt: TLCOpt{Spec: "Continuation", Cfg: c15ContCfg(c15AllClasses, c.Pick(3, 4), "mc", 1), Workers: c.Pick(4, 8), Files: c15Dummy}},
 		{name: "grammar", opt: TLCOpt{Spec: "Continuation", Cfg: c15ContCfg([]string{"id"}, 0, "grammar", c.Pick(1, 2)), Workers: 4, Files: c15Dummy}},
-		{name: "chunking", opt: TLCOpt{Spec: "Chunking", Cfg: c15ChunkCfg(c15AllKinds, c.Pick(3, 4), 8, "", true, "TypeOK ChunkingIsInvisible RestIsWhole NoChunkFails"), Workers: 4}},
+		{name: "chunking", opt: TLCOpt{Spec: "Chunking", Cfg: c15ChunkCfg(c15AllKinds, []string{"plain"}, c.Pick(3, 4), 8, "", nil, true, c15ChunkInvariants), Workers: 4}},
+		{name: "chunking-forms", opt: TLCOpt{Spec: "Chunking", Cfg: c15ChunkCfg(c15FormKindsRun, c15FormNames(), c.Pick(2, 3), c.Pick(5, 6), "", nil, true, c15ChunkInvariants), Workers: 4}},
+		{name: "chunking-redefinition", opt: TLCOpt{Spec: "Chunking", Cfg: c15ChunkCfg(c15RedefKindsRun, []string{"plain"}, c.Pick(4, 5), c.Pick(4, 5), "", nil, true, c15ChunkInvariants), Workers: 4}},
 	}
 	if c.Thorough() {
 		jobs = append(jobs, &tlcJob{name: "mc-long", opt: TLCOpt{Spec: "Continuation", Cfg: c15ContCfg(sigmaSmall, 5, "mc", 1), Workers: 8, Files: c15Dummy}})
 	}
-	for _, rl := range []string{"errors", "return", "use-before-def", "redef-after-use"} {
+	// runs that MUST violate ChunkingIsInvisible: a precondition dropped (under the implementation's hoisting of macro
+	// definitions, which is what makes "defined before use" a precondition), or a deviation of the implementation added
+	hoist := []string{"hoist-definitions"}
+	for _, rl := range []string{"errors", "return", "use-before-def"} {
 		kinds := []string{"set", "print", "mdef1", "mdef2", "muse", "ret", "err"}
-		jobs = append(jobs, &tlcJob{name: "relax:" + rl, opt: TLCOpt{Spec: "Chunking", Cfg: c15ChunkCfg(kinds, 4, 4, rl, false, "ChunkingIsInvisible"), Workers: 1, AllowError: true}})
+		jobs = append(jobs, &tlcJob{name: "relax:" + rl, opt: TLCOpt{Spec: "Chunking", Cfg: c15ChunkCfg(kinds, []string{"plain"}, 4, 4, rl, hoist, false, "ChunkingIsInvisible"), Workers: 1, AllowError: true}})
 	}
+	jobs = append(jobs,
+		&tlcJob{name: "relax:dev hoist-definitions", opt: TLCOpt{Spec: "Chunking", Cfg: c15ChunkCfg(c15RedefKindsRun, []string{"plain"}, 4, 4, "", hoist, false, "ChunkingIsInvisible"), Workers: 1, AllowError: true}},
+		&tlcJob{name: "relax:dev copy-alters-text", opt: TLCOpt{Spec: "Chunking", Cfg: c15ChunkCfg([]string{"def1", "show", "mdef1", "muse", "set"}, []string{"plain"}, 4, 4, "", []string{"hoist-definitions", "copy-alters-text"}, false, "ChunkingIsInvisible"), Workers: 1, AllowError: true}})
 	var wg sync.WaitGroup
 	sem := make(chan struct{}, 4)
 	for _, j := range jobs {
@@ -174,12 +191,12 @@ func checkC15(c *Ctx) {
 		}
 		if strings.HasPrefix(j.name, "relax:") {
 			if j.res.InvViolated != "ChunkingIsInvisible" {
-				c.Infra(fmt.Errorf("Chunking.tla without the precondition %q satisfied ChunkingIsInvisible (vacuous model): %s", j.name, j.res.ErrText))
+				c.Infra(fmt.Errorf("Chunking.tla without the precondition / with the deviation %q satisfied ChunkingIsInvisible (vacuous model): %s", j.name, j.res.ErrText))
 				return
 			}
 		}
 	}
-	c.Cov("design_counterexamples", "Chunking.tla violates ChunkingIsInvisible as soon as one precondition is dropped: errors, return, use-before-def, redef-after-use")
+	c.Cov("design_counterexamples", "Chunking.tla (macro definitions hoisted per chunk, as implemented) violates ChunkingIsInvisible as soon as one precondition is dropped: errors, return, use-before-def; with all preconditions, on a script that defines a macro after a use another definition served (Dev hoist-definitions: the listed finding); and as soon as the copy made by the expansion pass may print differently from the original (Dev copy-alters-text)")
 	mc := wait("mc").res
 	c.Note("Continuation mc: %d token strings (states), invariants %s, property DepthStep", mc.Distinct, c15Invariants)
 
@@ -249,7 +266,7 @@ func checkC15(c *Ctx) {
 	}
 
 	// ------------------------------------------------------------------ clause 3
-	c15Sessions(c, wait("chunking").res.Emitted)
+	c15Sessions(c, wait("chunking").res.Emitted, wait("chunking-forms").res.Emitted, wait("chunking-redefinition").res.Emitted)
 }
 
 // c15LineDemands: for every newline of a recorded program, the clause Continuation.tla demanded for the prefix that
@@ -377,12 +394,16 @@ func replayC15(rp map[string]any) (bool, string) {
 		b, _ = json.Marshal(rp["cuts"])
 		_ = json.Unmarshal(b, &cuts)
 		lineMode, _ := rp["line_mode"].(bool)
+		redef, _ := rp["redef"].(bool)
 		w := c15RunInputs([]string{c15JoinStmts(stmts)}, false)
+		a := c15RunInputs(c15Chunks(stmts, cuts), lineMode)
+		cs := c15SessCase{Stmts: stmts, Cuts: cuts, LineMode: lineMode, Redef: redef, A: a, B: w}
 		if w.Err || w.Panicked {
+			if !a.Err && !a.Panicked && len(cuts) == len(stmts) { // the two ways of feeding disagree on whether the script is error free
+				return false, c15SessionWhat(cs)
+			}
 			return true, "the script is not error free on this tree"
 		}
-		a := c15RunInputs(c15Chunks(stmts, cuts), lineMode)
-		cs := c15SessCase{Stmts: stmts, Cuts: cuts, LineMode: lineMode, A: a, B: w}
 		if a.Out == w.Out && a.Err == w.Err && a.ErrMsg == w.ErrMsg && a.Globals == w.Globals && a.SaveErr == w.SaveErr {
 			return true, ""
 		}
